@@ -12,6 +12,7 @@ LEVELS = [0, 1, 2, 3, 4, 5, 6, 7, 8]
 class Gen:
     def __init__(self, seed, variant, qcap=512, focus=None):
         self.r = random.Random(seed)
+        self.seed = seed if isinstance(seed, int) else hash(str(seed)) & 0xffffff
         self.variant = variant
         self.dropping = variant % 2 == 1
         self.unbounded = variant >= 2
@@ -37,7 +38,13 @@ class Gen:
         if f == "pressure":
             soft, hard = r.choice([(1, 1), (1, 2), (2, 2), (2, 4)])
         self.grace_ns = grace * 1000
-        self.emit("cfg grace=%d soft=%d hard=%d tcap=%d" % (grace, soft, hard, r.choice([2, 4, 8])))
+        # sink_min_flush_interval in ms: 0 (every idle pass flushes), small (elapses with the script's clock steps: 1 ms),
+        # huge (never elapses after the start) — drawn from a generator of its own so that the rest of the script is the
+        # one the seed always produced
+        ri = random.Random(self.seed * 7919 + self.variant * 13 + 5)
+        self.flushint = ri.choice([0, 0, 1, 1000000]) if f != "flush" else ri.choice([0, 1, 1000000, 1000000])
+        fi = " flushint=%d" % self.flushint if self.flushint else ""
+        self.emit("cfg grace=%d soft=%d hard=%d tcap=%d%s" % (grace, soft, hard, r.choice([2, 4, 8]), fi))
         self.nsinks = r.choice([1, 2, 2, 3])
         self.sinkcfg = {}
         for s in range(self.nsinks):
@@ -252,6 +259,26 @@ def directed_scripts(variant):
     out.append(("dir_f12_removed_logger_flush", [
         "cfg grace=0 soft=4 hard=8 tcap=2", "sink 0 lvl=0", "sink 1 lvl=0", "logger 0 sinks=0 lvl=0", "logger 1 sinks=1 lvl=0", "start",
         "T 1 start", "L 1 0 4 10", "RL 1 0", "F 1 1", "P", "P", "R 1", "P", "P", "Q", "X"]))
+    # F33: non-zero sink_min_flush_interval; the logger is erased (idle branch) before any flush; the user keeps the sink
+    for tag, removal, pre in (("rl", "RL 1 0", []), ("rb", "RB 1 0", []), ("written_first", "RL 1 0", ["P"])):
+        out.append(("dir_f33_erased_logger_flush_" + tag, [
+            "cfg grace=0 soft=4 hard=8 tcap=2 flushint=1000000", "sink 0 lvl=0", "sink 1 lvl=0", "logger 0 sinks=0 lvl=0",
+            "logger 1 sinks=1 lvl=0", "start", "T 1 start", "T 2 start", "L 1 0 4 10"] + pre + [removal, "P", "P", "P", "R 1", "Q",
+            "F 1 1", "P", "P", "R 1", "K 2000000000", "P", "Q", "X"]))
+    # the gate itself: interval 1 ms; idle passes just below, at and just above the interval; Flush event and exit ignore it
+    out.append(("dir_flush_interval_gate", [
+        "cfg grace=0 soft=4 hard=8 tcap=2 flushint=1", "sink 0 lvl=0", "logger 0 sinks=0 lvl=0", "start",
+        "T 1 start", "L 1 0 4 10", "P", "P", "K 999999", "P", "K 1", "P", "K 1", "P", "P", "L 1 0 4 10", "F 1 0", "P", "P", "R 1",
+        "K 1000001", "P", "L 1 0 4 10", "P", "Q", "X"]))
+    # a write fault on a later sink after an earlier sink took the statement, then flush_log: the earlier sink holds output
+    out.append(("dir_flush_after_partial_write", [
+        "cfg grace=0 soft=4 hard=8 tcap=2 flushint=1000000", "sink 0 lvl=0", "sink 1 lvl=0 wthrow=1", "logger 0 sinks=0,1 lvl=0", "start",
+        "T 1 start", "L 1 0 4 10", "F 1 0", "P", "P", "R 1", "L 1 0 4 10", "F 1 0", "P", "P", "R 1", "Q", "X"]))
+    # flush_log of thread 2 behind a backlog of thread 1 that is longer than the hard limit (batch mode: soft = 1)
+    out.append(("dir_flush_behind_truncated_backlog", [
+        "cfg grace=1 soft=1 hard=2 tcap=2", "sink 0 lvl=0", "logger 0 sinks=0 lvl=0", "start",
+        "T 1 start", "T 2 start"] + ["L 1 0 4 10", "K 10"] * 6 + ["K 1000", "F 2 0", "K 100000", "P", "R 2", "P", "R 2", "P", "R 2",
+        "P", "R 2", "P", "R 2", "P", "R 2", "Q", "X"]))
     # site 9 (inside a sink destructor run by the logger clean-up): another logger gets a statement and is removed while
     # an earlier logger is being erased — the emptiness of the queues must be re-checked for it (C17)
     out.append(("dir_site9_remove_during_sink_dtor", [
@@ -578,22 +605,31 @@ def oracles(lines):
         fw = flush_wait.pop(a, None)
         # (statements logged through a logger that was removed before the flush are included: its sinks are flushed
         #  as long as the backend has not erased it, and it is erased only after an idle pass, which flushes first — F12)
-        if not fw or has_faults or dyn_cfg_changes:
+        if not fw:
             return
+        # with write faults or level changes under way "must have been written" is not claimed (a throwing sink costs the
+        # later sinks their copy, C10); "what was written has been flushed since" is claimed always for the caller's own
+        # statements: the Flush event flushes every sink reachable through a logger — also one that took the statement
+        # before a later sink threw
+        strict = not (has_faults or dyn_cfg_changes)
         for i in fw["need"]:
             st = stmts[i]
             if st["lvl"] == 9:
                 continue
             own = st["actor"] == a
             if not own:
+                if not strict:
+                    continue
                 # claimed only with ordering enabled, for a strictly smaller clock value, and under C05's premise
                 if grace == 0 or not (st["ts"] < fw["t"]) or st["enq"] is None or st["enq"] > st["ts"] + grace:
                     continue
             for s in st["sinks"]:
                 sk = rec["sinks"].get(s)
-                if not sk or not accepts(sk, st, i):
+                if not sk:
                     continue
                 if written.get((s, i), 0) == 0:
+                    if not strict or not accepts(sk, st, i):
+                        continue
                     viol.append(("C06", "flush_log of actor %d returned but statement id=%d (actor %d, ts=%d) is not written to sink %d" % (a, i, st["actor"], st["ts"], s)))
                 elif flushed_after.get(s, -1) <= last_write_idx[(s, i)]:
                     viol.append(("C06", "flush_log of actor %d returned but sink %d was not flushed after statement id=%d was written" % (a, s, i)))
